@@ -132,6 +132,29 @@ def _s1(program, res):
             res.fail_at("C16-S1", sqlite_nj, f"sqlite-no-rewrite:{jt}", f"SQLiteModel no longer rewrites {jt} joins")
 
 
+def twin_cleanup_rule(program, res, rule="C16-S3"):
+    """Pandas natural join: which suffixed twins exist is decided on key *pairs*"""
+    pj = program.method("pandas_base", "PandasModelBase", "_natural_join_step", inherited=False)
+    res.analysed(pj)
+    # S3b: twin clean-up decided on key pairs
+    guard_sets = [st for st in ast.walk(pj.node) if isinstance(st, ast.Assign) and isinstance(st.targets[0], ast.Name)
+                  and any(isinstance(i, ast.If) and isinstance(i.test, ast.Compare) and isinstance(i.test.ops[0], ast.NotIn)
+                          and unparse(i.test.comparators[0]) == st.targets[0].id for i in ast.walk(pj.node))]
+    if not guard_sets:
+        raise AnalysisError("Pandas _natural_join_step: twin clean-up guard set not found")
+    gs = guard_sets[-1]
+    v = gs.value
+    pairwise = isinstance(v, (ast.SetComp, ast.ListComp, ast.GeneratorExp)) and "zip(op.on_a, op.on_b)" in unparse(v.generators[0].iter) \
+        and any(isinstance(c, ast.Compare) and isinstance(c.ops[0], ast.Eq) for c in v.generators[0].ifs)
+    if pairwise:
+        res.ok(rule, "Pandas: a suffixed twin is kept out of the clean-up only for an equal-named key pair (zip(on_a, on_b))")
+    else:
+        res.fail_at(rule, pj, "twin-cleanup-not-pairwise",
+                    f"`{unparse(gs)[:90]}` decides which shared columns pandas merged into one: pandas merges a key pair only when "
+                    f"both names are equal *in the same pair*; a set-based test (on_a only, or on_a ∩ on_b) leaves "
+                    f"`<col>_tmp_right_col` in the result for crossed or differently named keys", gs)
+
+
 def _s3(program, res):
     nj = program.method("sql_model", "SQLModel", "natural_join_to_near_sql", inherited=False)
     g = cfgmod.build(nj.node)
@@ -222,23 +245,7 @@ def _s3(program, res):
         res.ok("C16-S3", "Pandas: nulls of the left column are filled from the suffixed right twin")
     else:
         res.fail_at("C16-S3", pj, "pandas-coalesce-direction", "the shared-column fix-up no longer fills nulls of the left column from the right twin")
-    # S3b: twin clean-up decided on key pairs
-    guard_sets = [st for st in ast.walk(pj.node) if isinstance(st, ast.Assign) and isinstance(st.targets[0], ast.Name)
-                  and any(isinstance(i, ast.If) and isinstance(i.test, ast.Compare) and isinstance(i.test.ops[0], ast.NotIn)
-                          and unparse(i.test.comparators[0]) == st.targets[0].id for i in ast.walk(pj.node))]
-    if not guard_sets:
-        raise AnalysisError("Pandas _natural_join_step: twin clean-up guard set not found")
-    gs = guard_sets[-1]
-    v = gs.value
-    pairwise = isinstance(v, (ast.SetComp, ast.ListComp, ast.GeneratorExp)) and "zip(op.on_a, op.on_b)" in unparse(v.generators[0].iter) \
-        and any(isinstance(c, ast.Compare) and isinstance(c.ops[0], ast.Eq) for c in v.generators[0].ifs)
-    if pairwise:
-        res.ok("C16-S3", "Pandas: a suffixed twin is kept out of the clean-up only for an equal-named key pair (zip(on_a, on_b))")
-    else:
-        res.fail_at("C16-S3", pj, "twin-cleanup-not-pairwise",
-                    f"`{unparse(gs)[:90]}` decides which shared columns pandas merged into one: pandas merges a key pair only when "
-                    f"both names are equal *in the same pair*; a set-based test (on_a only, or on_a ∩ on_b) leaves "
-                    f"`<col>_tmp_right_col` in the result for crossed or differently named keys", gs)
+    twin_cleanup_rule(program, res)
     # ---- Polars
     plj = program.method("polars_model", "PolarsModel", "_natural_join_step", inherited=False)
     whens = [c for c in ast.walk(plj.node) if isinstance(c, ast.Call) and isinstance(c.func, ast.Attribute) and c.func.attr == "alias"
